@@ -550,7 +550,7 @@ func (m *mgrMachine) deliver(f peerFrame, variant int, what int) *vf.Verdict {
 		}
 		m.cl["conflict-rejected"] = true
 		if code, isTE := transportCode(err); isTE && code != qerr.ProtocolViolation {
-			return vf.Bad("C16/peer-ids/wrong-error-code", "conflicting content for sequence number %d: got %v", f.Seq, err)
+			return vf.Bad(m.susAny("C16/peer-ids/wrong-error-code"), "conflicting content for sequence number %d: got %v", f.Seq, err)
 		}
 		if v := m.settle(opctx{kind: "add", seq: f.Seq, hadErr: true}); v != nil {
 			return v
